@@ -1,6 +1,6 @@
 """C20  Real-space symmetrisation yields a symmetric, Hermitian model (DESIGN 4/C20)
 
-A random, non symmetric start model (vlib.symlib.build_start) on a structure of the library (22 structures, 3
+A random, non symmetric start model (vlib.symlib.build_start) on a structure of the library (23 structures, 3
 families, several consistent projection sets each, scalar / spin-orbit / magnetic variants) is symmetrised by the
 real System_R.symmetrize().  The harness then decides, with its own transformation rules,
   covariance   for EVERY element g of the resulting point group and 2 generic k: E(gk) = E(k), and the band
@@ -23,7 +23,7 @@ from vlib import wbsys, symlib
 PROPERTY_ID = "C20"
 RULE = ("structure library of vlib/symlib.py (cubic: sc, CsCl, zincblende, diamond, fcc, bcc, AFM CsCl; hexagonal: "
         "graphene (120 and 60 degree cells), hBN, 1-atom, kagome, Te-like screw chain, wurtzite, rhombohedral; low symmetry: "
-        "tetragonal, polar C4v, AFM tetragonal, orthorhombic, polar C2v, monoclinic, triclinic P-1) x consistent projection "
+        "tetragonal, polar C4v, AFM tetragonal, orthorhombic, polar C2v, orthorhombic with one species on two interleaved Wyckoff orbits (reordering), monoclinic, triclinic P-1) x consistent projection "
         "set (s, p, d, sp, sp2, sp3, sp3d2, pz, pxy, p2, t2g, eg, several species) x {scalar, spin-orbit, ferro/antiferro/"
         "non-collinear magnetic moments} x free lattice/internal parameters x random Hermitian start model (Ham, AA, SS "
         "with spin, optional BB CC SH SA SHA OO GG FF SR SHR, <= 4 R pairs) with centres displaced from the atoms "
@@ -45,7 +45,7 @@ OPT_SPIN_KEYS = ["SH", "SA", "SHA", "SR", "SHR"]
 HERM_KEYS = ("Ham", "AA", "SS", "CC", "OO", "GG")
 CENTRE_CLAUSES = ("covariance:berry", "centres-orbit", "idempotent:centres")
 
-_small = st.tuples(st.integers(-1, 1), st.integers(-1, 1), st.integers(-1, 1))
+_small = st.tuples(st.integers(-1, 1), st.integers(-1, 1), st.integers(-1, 1)).filter(lambda r: any(r))
 
 
 def case_st(family):
@@ -58,10 +58,11 @@ def case_st(family):
         opt = OPT_KEYS + (OPT_SPIN_KEYS if s["soc"] else [])
         keys += draw(st.lists(st.sampled_from(opt), max_size=2, unique=True))
         return dict(struct=s, rs=draw(st.integers(0, 2 ** 32)),
-                    R=[list(r) for r in draw(st.lists(_small, min_size=1, max_size=4, unique=True))],
+                    R=[list(r) for r in draw(st.lists(_small, min_size=2, max_size=4, unique=True))],
                     keys=keys, cmode=draw(st.sampled_from(["site", "wf", "exact", "site", "wf"])),
                     disp=draw(st.sampled_from([0.01, 0.03, 0.06])), decay=draw(st.sampled_from([0.5, 1.0, 2.0])),
-                    ks=[[draw(fl(0.03, 0.47)) for _ in range(3)] for _ in range(2)])
+                    ks=[[draw(fl(0.03, 0.47)) for _ in range(3)] for _ in range(2)],
+                    reorder_back=draw(st.sampled_from([False, False, False, True])))
     return _st()
 
 
@@ -101,8 +102,9 @@ def check(case):
     start = symlib.matrices_by_R(system)
     i0 = tuple((0, 0, 0))
     trace0 = complex(np.trace(start["Ham"][i0]))
-    symmetrizer = symlib.symmetrize(system, rs)
-    if symmetrizer is None:
+    rb = bool(case.get("reorder_back", False))
+    symmetrizer = symlib.symmetrize(system, rs, reorder_back=rb)
+    if symmetrizer is None and not rb:
         raise Violation("no-symmetrizer", "symmetrize() returned None with reorder_back=False")
     if not getattr(system, "symmetrized", False):
         raise Violation("flag", "system.symmetrized is not set after symmetrize()")
@@ -131,13 +133,16 @@ def check(case):
         found.append(("onsite-trace", f"{symlib.label(s)}: sum of on-site energies {trace0:.12g} -> {trace1:.12g}"))
 
     # --- centres map onto each other
-    e = centres_orbit_error(cen1, symmetrizer.spacegroup)
+    e = centres_orbit_error(cen1, symmetrizer.spacegroup) if symmetrizer is not None else 0.0
     if e > 1e-8:
         found.append(("centres-orbit", f"{symlib.label(s)}: the image of a Wannier centre under a space-group operation is "
                                        f"{e:.3e} (reduced units) away from every centre; centres {np.round(cen1, 6).tolist()}"))
 
     # --- idempotence
-    system.symmetrize2(symmetrizer)
+    if symmetrizer is not None:
+        system.symmetrize2(symmetrizer)
+    else:   # reorder_back=True with a changed order: the documented return value is None; symmetrise again from scratch
+        symlib.symmetrize(system, rs, reorder_back=True)
     second = symlib.matrices_by_R(system)
     cen2 = np.array(system.wannier_centers_red)
     for key in sorted(first):
@@ -165,8 +170,9 @@ def check(case):
               f"group={ngroup}", f"centres={mode}", f"nw={model.nw}", "AA" if "AA" in case["keys"] else "noAA",
               *[f"key:{k}" for k in case["keys"] if k not in ("Ham", "AA", "SS")],
               *[f"zero-by-symmetry:{q}" for q in triv], "Rlist-grows-on-2nd" if grows else "Rlist-stable",
-              f"proj={'+'.join(rs['proj'])}", known=[f[0] for f in named])
+              f"proj={'+'.join(rs['proj'])}", "reorder_back" if rb else "",
+              "no-symmetrizer-returned(centres-orbit skipped)" if symmetrizer is None else "", known=[f[0] for f in named])
 
 
-SUBS = [Sub(f, case_st(f), check, quick=2, thorough=64, budget_quick=80, budget_thorough=800, per_shard_min=1, group="sym")
+SUBS = [Sub(f, case_st(f), check, quick=4, thorough=64, budget_quick=80, budget_thorough=800, per_shard_min=1, group="sym")
         for f in ("cubic", "hexagonal", "lowsym")]
